@@ -139,6 +139,11 @@ def run(tier, seed):
             outs["record-memoryview-writable"] = va(pol, rec(wmv), wmv)
             win = lambda b: memoryview(b"\x00\x01" + bytes(b) + b"\xff")[2:-1]      # a window into a larger buffer
             outs["record-memoryview-window"] = va(pol, rec(win), win)
+            # views that are not contiguous: the reversed buffer read backwards, every second byte of a buffer twice as long - their CONTENT is the field
+            rev = lambda b: memoryview(bytes(b)[::-1])[::-1]
+            outs["record-memoryview-reversed-stride"] = va(pol, rec(rev), rev)
+            strided = lambda b: memoryview(bytes(y for x in bytes(b) for y in (x, 0x5A)))[::2]
+            outs["record-memoryview-strided"] = va(pol, rec(strided), strided)
             # pooled buffers: bytearrays that the caller refills as soon as the call has returned - the result must not be reading from them (re-read at the end of the check)
             pool_ = []
             def pooled(b):
@@ -216,6 +221,10 @@ def run(tier, seed):
             outs["record-memoryview-writable"] = vr(pol, rec(wmv), wmv)
             win = lambda b: memoryview(b"\x00\x01" + bytes(b) + b"\xff")[2:-1]
             outs["record-memoryview-window"] = vr(pol, rec(win), win)
+            rev = lambda b: memoryview(bytes(b)[::-1])[::-1]
+            outs["record-memoryview-reversed-stride"] = vr(pol, rec(rev), rev)
+            strided = lambda b: memoryview(bytes(y for x in bytes(b) for y in (x, 0x5A)))[::2]
+            outs["record-memoryview-strided"] = vr(pol, rec(strided), strided)
             pool_ = []
             def pooled(b):
                 if b is reg.cred_id:
